@@ -40,6 +40,9 @@ class FakeReader:
     async def readline(self):
         return await self.read()
 
+    async def readexactly(self, count):
+        return await self.read(count)
+
 
 class FakeWriter:
     def __init__(self, log):
@@ -92,9 +95,9 @@ def drive(world, a, seq, throttles, direction, events=None):
                 events[i](throttles)
             if gap:
                 await asyncio.sleep(gap)
-            if direction == "read":
+            if direction in ("read", "readexactly", "readline"):
                 reader.chunk, reader.duration = b"x" * chunk, dur
-                await stream.read(chunk)
+                await getattr(stream, direction)(*([chunk] if direction != "readline" else []))
             else:
                 writer.duration = dur
                 await stream.write(b"x" * chunk)
@@ -106,7 +109,8 @@ def drive(world, a, seq, throttles, direction, events=None):
 
 
 def api_single(item):
-    L, reset, length, direction = item
+    L, reset, length, direction = item[:4]
+    family = item[4] if len(item) > 4 else "dyadic"
     import aioftp as a
     part = report.Partial()
     w = World()
@@ -114,22 +118,27 @@ def api_single(item):
         chunks = [1, L // 2, L, 3 * L]
         durs = [0.0, 0.25, 2.0 * reset]
         gaps = [0.0, 0.5, reset + 1.0]
+        if family == "fine":
+            # reset periods far below one byte's worth of time: a trickle under the limit, bursts in between
+            chunks, durs, gaps = [1], [0.0], [0.0, 0.004, 0.016]
         alpha = list(itertools.product(chunks, durs, gaps))
+        rdir = "read" if direction.startswith("read") else "write"
         for n in range(1, length + 1):
             for seq in itertools.product(alpha, repeat=n):
-                thr = a.StreamThrottle(read=a.Throttle(limit=L if direction == "read" else None, reset_rate=reset),
-                                       write=a.Throttle(limit=L if direction == "write" else None, reset_rate=reset))
+                thr = a.StreamThrottle(read=a.Throttle(limit=L if rdir == "read" else None, reset_rate=reset),
+                                       write=a.Throttle(limit=L if rdir == "write" else None, reset_rate=reset))
                 got = drive(w, a, seq, {"t": thr}, direction)
                 want = reference(seq, [L])
                 part.evaluations += 1
-                if any(abs(g - x) > 1e-6 + 0.5 / L * (i + 1) for i, (g, x) in enumerate(zip(got, want))) or len(got) != len(want):
+                # (no allowance that grows with the number of operations: the bound is cumulative)
+                if any(abs(g - x) > 1e-6 for i, (g, x) in enumerate(zip(got, want))) or len(got) != len(want):
                     part.violation({"kind": "throttle-start-times", "config": "single", "direction": direction},
                                    {"L": L, "reset_rate": reset, "seq": seq, "got": got, "want": want},
                                    replay={"api": ["single", L, reset, list(map(list, seq)), direction]})
                     if len(part.violations) > 20:
                         return part
-            part.states.add(report.fp([L, reset, n, direction]))
-        part.nontrivial.add(report.fp([L, reset, length, direction]))
+            part.states.add(report.fp([L, reset, n, direction, family]))
+        part.nontrivial.add(report.fp([L, reset, length, direction, family]))
         part.sample({"L": L, "reset_rate": reset, "length": length, "direction": direction, "alphabet": len(alpha)}, limit=1)
     finally:
         w.close()
@@ -670,11 +679,15 @@ def run(tier, seed, t0):
     api_items = [(L, r, length, d) for L in (8, 1024) for r in (1, 10) for d in ("read", "write")]
     if tier == "quick":
         api_items.append((8, 1, 3, "read"))
+    # every public read path of the stream is throttled alike
+    api_items += [(L, 1, length, d) for L in (8, 1024) for d in ("readexactly", "readline")]
+    # reset periods shorter than the time one byte takes
+    api_items += [(100, r, 7 if tier == "quick" else 9, d, "fine") for r in (0.001, 0.01) for d in ("read", "write")]
     cfg_items = [(k, 2 if tier == "quick" else 3) for k in ("two-throttles", "unlimited", "setter-clone", "shared-vs-cloned")]
     eitems, ncases = e2e_items(tier)
     parts = report.pmap(api_single, api_items) + report.pmap(api_configs, cfg_items) + report.pmap(e2e_work, eitems)
     part = report.merge_all(parts)
-    bounds = {"api": {"limits": [8, 1024], "reset_rates": [1, 10], "chunk": "1, L/2, L, 3L", "io_duration": "0, 1/4, 2*reset",
+    bounds = {"api": {"limits": [8, 1024], "reset_rates": [1, 10], "fine": "L=100, reset 0.001/0.01, 1-byte blocks, gaps 0/4/16 ms, length 7 (9 thorough)", "read_paths": ["read", "readline", "readexactly"], "chunk": "1, L/2, L, 3L", "io_duration": "0, 1/4, 2*reset",
                       "idle_gap": "0, 1/2, reset+1", "sequence_length": length if tier != "quick" else "2 (3 for L=8, reset=1)",
                       "configs": ["single", "two-throttles", "unlimited/zero/opposite", "setter/clone mid-sequence",
                                   "shared vs cloned (two concurrent streams)"]},
@@ -689,7 +702,7 @@ def run(tier, seed, t0):
              "finish time per limit-sharing group within [bytes - in flight, bytes + in flight]/L, zero virtual time when no "
              "limit applies, cumulative bound on every server-side write.",
         bounds=bounds,
-        assumptions=["virtual clock; dyadic values so that the arithmetic is exact up to the documented round()",
+        assumptions=["virtual clock; start times compared to 1e-6 s",
                      "in-flight allowance: one block per stream plus control-channel lines"])
 
 
